@@ -3,6 +3,8 @@ from __future__ import annotations
 
 import os
 import re
+import subprocess
+import sys
 from urllib.parse import unquote
 
 from hypothesis import strategies as st
@@ -39,6 +41,15 @@ RULES = {
     "cookiex": "enumerated: cookie names that look like attributes or carry the __Secure- / __Host- prefixes, 40 hostile texts (';', CR/LF, "
     "quotes around a terminator, backslashes, compatibility forms of ';' ',' '=' such as U+FF1B U+FE54 U+037E, line separators) as name, as "
     "value and as both x 9 combinations of the other set_cookie arguments x set / delete; every code point 0..255 inside a NAME that starts and ends with a double quote",
+    "cookietok": "enumerated: cookie texts made of token characters plus one kind of other character - every code point 0..255 outside the "
+    "token set between token letters, between its code-point neighbours ('+' x '-'), alone; the separators (',' ';' '=' quotes, backslash, blank, "
+    "CR LF NUL, the characters left alone inside quotes) also first, last, doubled, repeated and in pairs - as name, as value and as both, through "
+    "set_cookie and delete_cookie, both interfaces; in the name=value part of the emitted line (before the first ';') there is no raw comma",
+    "cookieobj": "enumerated: the same texts and the hostile cookie texts as name / value of a Cookie object made directly, without and with "
+    "attributes; str() (WSGI line) and bytes() (ASGI line) are judged like an emitted Set-Cookie line",
+    "optimized": "one child interpreter started with -O (PYTHONOPTIMIZE=1) runs the enumerated mapping sub-checks 'paths' and 'kinds' (every mutation "
+    "path x prior state x 18 hostile strings; the other response classes) against the same tree; a violation there is relayed with its first line, "
+    "a harness error or a timeout of the child is labelled inconclusive; a child never starts another child",
     "redirect_exh": "enumerated: 7 URL contexts (bare, path, query, fragment, absolute, next to percent sequences, authority) x every code "
     "point 0..0x17F and selected ones above x str / URL object, hostile targets additionally with a clean headers= argument, 60 fixed hostile targets and long targets",
 }
@@ -51,6 +62,8 @@ ASSUMPTIONS = [
     "header names that the response class fills in itself at send time (Content-Length, Content-Type, Content-Range, Location) may be emitted with the response's own value; "
     "mutations of them through the mapping are judged like any other (rejected when forbidden, never emitted with CR/LF/NUL)",
     "the other set_cookie arguments (path, domain, ...) take fixed benign values: the statement quantifies over name and value only",
+    "a raw comma in the name=value part of a Set-Cookie line counts as introducing a second header (recipients that split field values at commas), inside quotes too - browsers do not honour quotes for ';' either; the comma of the Expires attribute is not judged",
+    "the statement holds in every interpreter mode: rejection at the point of mutation must not depend on __debug__ (python -O / PYTHONOPTIMIZE); sampled by one child interpreter on the enumerated mapping grids",
 ]
 
 FORBIDDEN = ("\r", "\n", "\x00")
@@ -286,7 +299,7 @@ def implied_attributes(c):
         want.append("max-age")
     if attrs.get("domain"):
         want.append("domain")
-    if attrs.get("path", "/"):
+    if attrs.get("path", None if c.get("direct") else "/"):
         want.append("path")
     if attrs.get("httponly"):
         want.append("httponly")
@@ -298,6 +311,37 @@ def implied_attributes(c):
 
 def _wide(s: str) -> bool:
     return any(ord(ch) > 255 for ch in s)
+
+
+def judge_cookie_line(r: Result, side, c, line, wide):
+    """One emitted Set-Cookie field value against the cookie `c` it was made from."""
+    ctx = f"{side} cookie {c!r} -> {line!r}"[:1500]
+    if not wide:
+        try:
+            line.encode("ascii")
+        except UnicodeEncodeError:
+            r.fail(f"C13:{side}:cookie-not-ascii", ctx)
+    parts = line.split(";")
+    attrs = [p.strip().partition("=")[0].lower() for p in parts[1:]]
+    want = implied_attributes(c)
+    if attrs != want:
+        r.fail(f"C13:{side}:cookie-attributes", f"{ctx}: attributes {attrs!r}, implied by the arguments {want!r}")
+        return
+    # the attributes are exactly the implied ones, so parts[0] is all that the name and the value produced.
+    # "... or a second header": a field value is cut into list members at every raw comma by recipients and
+    # intermediaries that fold / unfold repeated fields (RFC 7230 3.2.2 - RFC 6265 section 3 warns that Set-Cookie
+    # breaks under exactly this; http.cookiejar, fetch's Headers.get + split), quoted or not - just as a browser cuts at
+    # every ';' (the rule of the attribute count above).  What follows the comma would be read as a complete second
+    # cookie with the attributes of this one.  The Expires attribute has its comma by definition and is not judged.
+    pair = parts[0]
+    if "," in pair:
+        r.fail(f"C13:{side}:cookie-pair-raw-comma", f"{ctx}: the name=value part {pair[:300]!r} contains a raw comma - a list-splitting recipient sees a second Set-Cookie member {pair.split(',', 1)[1][:200]!r}")
+    if all(ord(ch) < 256 for ch in c["name"] + c["value"]) and re.fullmatch(r"[!#$%&'*+\-.^_`|~0-9A-Za-z]+", c["name"]):
+        rq = gw.areq(headers=[["Cookie", pair]])
+        back = bwsgi.Request(gw.make_environ(rq)).cookies
+        want_v = "" if c.get("delete") else c["value"]
+        if back != {c["name"]: want_v}:
+            r.fail(f"C13:{side}:cookie-readback", f"{ctx}: reads back as {back!r}")
 
 
 def oracle(case) -> Result:
@@ -360,25 +404,7 @@ def oracle(case) -> Result:
         if cookie_error is not None:
             continue
         for c, line in zip(cookies, cookie_lines):
-            ctx = f"{side} cookie {c!r} -> {line!r}"[:1500]
-            if not wide:
-                try:
-                    line.encode("ascii")
-                except UnicodeEncodeError:
-                    r.fail(f"C13:{side}:cookie-not-ascii", ctx)
-            parts = line.split(";")
-            attrs = [p.strip().partition("=")[0].lower() for p in parts[1:]]
-            want = implied_attributes(c)
-            if attrs != want:
-                r.fail(f"C13:{side}:cookie-attributes", f"{ctx}: attributes {attrs!r}, implied by the arguments {want!r}")
-                continue
-            if all(ord(ch) < 256 for ch in c["name"] + c["value"]) and re.fullmatch(r"[!#$%&'*+\-.^_`|~0-9A-Za-z]+", c["name"]):
-                pair = parts[0]
-                rq = gw.areq(headers=[["Cookie", pair]])
-                back = bwsgi.Request(gw.make_environ(rq)).cookies
-                want_v = "" if c.get("delete") else c["value"]
-                if back != {c["name"]: want_v}:
-                    r.fail(f"C13:{side}:cookie-readback", f"{ctx}: reads back as {back!r}")
+            judge_cookie_line(r, side, c, line, wide)
     return r
 
 
@@ -431,6 +457,37 @@ def oracle_redirect(case) -> Result:
     return r
 
 
+def oracle_cookie_object(case) -> Result:
+    """A Cookie object made directly (what set_cookie does inside): str() is the WSGI line, bytes() the ASGI one."""
+    from baize.datastructures import Cookie
+
+    r = Result()
+    c = dict(case, direct=True)
+    attrs = c.get("attrs") or {}
+    texts = c["name"] + c["value"]
+    wide = _wide(texts)
+    r.nontrivial = bad(texts) or "," in texts or ";" in texts
+    r.label("cookie-object", "wide-char" if wide else "latin-1")
+    try:
+        cookie = Cookie(c["name"], c["value"], **attrs)
+    except Exception as exc:  # noqa: BLE001
+        if not wide:
+            r.fail("C13:cookie-object-rejected", f"Cookie({c['name']!r}, {c['value']!r}) raised {exc!r} instead of escaping"[:1500])
+        return r
+    for side, render in (("wsgi", str), ("asgi", lambda ck: bytes(ck).decode("latin-1"))):
+        try:
+            line = render(cookie)
+        except UnicodeError:
+            if wide:
+                r.label("wide-char-rejected")
+                continue
+            raise
+        if bad(line):
+            r.fail(f"C13:{side}:emitted-forbidden", f"{side} cookie object {c!r} -> {line[:600]!r}")
+        judge_cookie_line(r, side, c, line, wide)
+    return r
+
+
 SUBS = {
     "history": oracle,
     "redirect": oracle_redirect,
@@ -440,6 +497,8 @@ SUBS = {
     "long": oracle,
     "kinds": oracle,
     "cookiex": oracle,
+    "cookietok": oracle,
+    "cookieobj": oracle_cookie_object,
     "redirect_exh": oracle_redirect,
 }
 
@@ -486,7 +545,7 @@ ATTR_SETS = [
 _cookie_text = st.one_of(_text, st.tuples(_text, st.sampled_from(COMPAT), _text).map("".join))
 _cookie = st.fixed_dictionaries(
     {
-        "name": st.one_of(st.sampled_from(["sid", "a", "k.1", "a;b", "a=b", "a\r\nSet-Cookie: x", "a b", "é", "", "__Secure-sid", "__Host-sid", "Secure", '"a;b"']), _cookie_text,
+        "name": st.one_of(st.sampled_from(["sid", "a", "k.1", "a;b", "a=b", "a\r\nSet-Cookie: x", "a b", "é", "", "__Secure-sid", "__Host-sid", "Secure", '"a;b"', "a,b", "pref_a,sessionid"]), _cookie_text,
                           st.tuples(st.sampled_from(["__Secure-", "__Host-", "__Host-sid", "$", "Path", "Domain", "Secure"]), _cookie_text).map("".join)),
         "value": st.one_of(_cookie_text, st.sampled_from(["v", "; Secure", "x; Domain=evil.example", "a\r\nSet-Cookie: evil=1", 'q"; HttpOnly', "a,b", "\x00"])),
         "delete": st.sampled_from([False, False, False, True]),
@@ -761,6 +820,58 @@ def cookiex_cases():
             yield {"response": "empty", "ops": [], "cookies": [{"name": name, "value": name, "delete": True}]}
 
 
+# the characters a cookie name / value may consist of without being quoted (RFC 7230 token characters and ':')
+TOKEN_PUNCT = "!#$%&'*+-.^_`|~:"
+_TOKEN_CHARS = set("abcdefghijklmnopqrstuvwxyzABCDEFGHIJKLMNOPQRSTUVWXYZ0123456789" + TOKEN_PUNCT)
+# separators of the cookie / field-value grammar and the characters the escaper leaves alone inside quotes
+_SEPARATORS = ",;=\"\\ \t\r\n\x00()/<>?@[]{}\x7f"
+OBJ_ATTR_SETS = [None, {"path": "/app", "domain": "example.com", "secure": True, "httponly": True, "max_age": 0, "samesite": "strict"}]
+
+
+def token_special_texts():
+    """Texts made of token characters plus ONE kind of other character (every code point 0..255 outside the token set):
+    whether such a text is quoted is decided by a pattern over the token set, so the neighbours in code-point order
+    ('+' ',' '-' '.', '9' ':' ... '@' 'A', 'Z' '[' ... '`' 'a', 'z' '{' '|' '}' '~') stand next to it."""
+    for cp in range(256):
+        ch = chr(cp)
+        if ch in _TOKEN_CHARS:
+            continue
+        frames = ["a" + ch + "b", "+" + ch + "-", ch]
+        if ch in _SEPARATORS:
+            frames += ["pref_a" + ch + "sessionid", "1" + ch + "2" + ch + "3", ch + "a", "a" + ch, ch + ch, "." + ch + "~", "a" + ch + "b" + ch]
+        for t in frames:
+            yield t
+    # two different ones next to token text
+    for a, b in ((",", ";"), (",", " "), (",", "="), (",", '"'), (";", " "), (",", "\\"), (",", "/"), (",", "\r\n")):
+        yield "a" + a + "b" + b + "c"
+        yield "a" + b + "b" + a + "c"
+
+
+def cookietok_cases():
+    for t in token_special_texts():
+        for name, value in ((t, "1"), ("sid", t), (t, t)):
+            yield {"response": "empty", "ops": [], "cookies": [{"name": name, "value": value, "delete": False}]}
+        yield {"response": "empty", "ops": [], "cookies": [{"name": t, "value": "", "delete": True}]}
+        if any(ch in _SEPARATORS for ch in t):
+            yield {"response": "plain", "ops": [], "cookies": [{"name": t, "value": t, "delete": False, "attrs": ATTR_SETS[-1]}, {"name": "sid", "value": t, "delete": False, "attrs": ATTR_SETS[1]}]}
+    # texts of token characters only go out as they are (and read back)
+    for t in ("a", "k.1", "a+b-c.d", TOKEN_PUNCT, "9:a", "Z^_`a", "z|~"):
+        yield {"response": "empty", "ops": [], "cookies": [{"name": t, "value": t, "delete": False}, {"name": t, "value": "", "delete": True}]}
+
+
+def cookieobj_cases():
+    for t in token_special_texts():
+        for attrs in OBJ_ATTR_SETS:
+            for name, value in ((t, "1"), ("sid", t), (t, t)):
+                c = {"name": name, "value": value}
+                if attrs:
+                    c["attrs"] = attrs
+                yield c
+    for t in COOKIE_HOSTILE + ["a", "k.1", TOKEN_PUNCT]:
+        yield {"name": t or "sid", "value": t}
+        yield {"name": "sid", "value": t, "attrs": OBJ_ATTR_SETS[1]}
+
+
 REDIRECT_HOSTILE = [
     "/next\r\nSet-Cookie: admin=1", "/next\r\n\r\n<script>", "/a\n", "/a\r", "/a\r\n", "\n/a", "/a\x00", "\x00", "/a b", " /a", "/a ", "/a\tb", "/a\x7f",
     "/a\x0bb", "/a\x1cb", "/a\x85b", "/a\xa0b", "/é", "/中文?q=中#中", "http://example.com/\r\nX: y", "http://exämple.com/ä", "//evil.example/\n", "/a?q=\r\nX: y",
@@ -800,6 +911,51 @@ def redirect_exh_cases(quick=True):
                 yield {"target": t, "as_url": n < 70000, "status": 307, "ctor_headers": hdr}
 
 
+# ---- the same mapping checks in an interpreter that runs optimised (-O / PYTHONOPTIMIZE) ------------------------------
+# "rejected with an error at the point of mutation" has to hold in every mode the interpreter is deployed in; under -O the
+# compiler removes `assert` statements and `if __debug__:` blocks, so a rejection written as either is absent there.  No
+# in-process case can show that: one child interpreter re-runs the fast enumerated mapping sub-checks.  The harness does
+# not use `assert` for its verdicts (Result.fail / exit codes), so it judges the same way in the child.
+_OPT_GUARD = "VERIF_C13_OPTIMIZED_CHILD"
+OPT_ONLY = "paths,kinds"
+_VERIF = os.path.dirname(os.path.dirname(os.path.abspath(__file__)))
+
+
+def oracle_optimized(case) -> Result:
+    r = Result()
+    r.nontrivial = True
+    if os.environ.get(_OPT_GUARD) or sys.flags.optimize:
+        r.label("not-nested")  # a child never starts another child; an optimised parent runs everything optimised anyway
+        return r
+    if core.OUT == _VERIF:
+        from harness import tmpfiles
+
+        out = tmpfiles.workdir("verif_c13_opt_")
+    else:
+        out = os.path.join(core.OUT, "child-optimized")
+    env = dict(os.environ, VERIF_OUT=out, PYTHONOPTIMIZE="1", PYTHONDONTWRITEBYTECODE="1")
+    env[_OPT_GUARD] = "1"
+    cmd = [sys.executable, "-O", os.path.join(_VERIF, "vrun.py"), "C13", "--tier", "quick", "--only", case["only"]]
+    try:
+        p = subprocess.run(cmd, env=env, capture_output=True, text=True, errors="replace", timeout=case.get("timeout", 60))
+    except subprocess.TimeoutExpired:
+        r.label("child-timeout(inconclusive)")
+        return r
+    if p.returncode == 0:
+        r.label("child-quiet")
+    elif p.returncode == 1:
+        lines = p.stdout.splitlines()
+        viol = [i for i, ln in enumerate(lines) if ln.startswith("VIOLATION")]
+        first = lines[viol[0] + 1 : viol[0] + 3] if viol else []
+        m = re.search(r"sub=(\S+) bucket=C13:(\S+)", first[0]) if first else None
+        bucket = f"C13:optimized:{m.group(2)}" if m else "C13:optimized:violation"
+        r.fail(bucket, f"interpreter started with -O (PYTHONOPTIMIZE=1), sub-checks {case['only']}: {len(viol)} violation(s), the first: " + " | ".join(x.strip() for x in first))
+    else:
+        r.label("child-harness-error(inconclusive)")
+        r.note = (p.stdout + p.stderr)[-300:]
+    return r
+
+
 def oracle_atheris(case) -> Result:
     """Replay / triage oracle for inputs found by the Atheris campaign: decode the bytes like the fuzz target does."""
     from fuzz import targets
@@ -810,10 +966,13 @@ def oracle_atheris(case) -> Result:
 
 
 SUBS["atheris"] = oracle_atheris
+SUBS["optimized"] = oracle_optimized
 
 
 def run(rec, only=None):
     quick = rec.tier == "quick"
+    if os.environ.get(_OPT_GUARD) and not sys.flags.optimize:
+        raise core.HarnessError("the child of the 'optimized' sub-check does not run optimised")
     core.drive_cases(rec, "exh", exh_cases(), oracle)
     rec.exhaustive["exh"] = True
     core.drive_cases(rec, "paths", paths_cases(), oracle)
@@ -821,12 +980,18 @@ def run(rec, only=None):
     core.drive_cases(rec, "long", long_cases(quick), oracle, sample=False)
     core.drive_cases(rec, "kinds", kinds_cases(), oracle)
     core.drive_cases(rec, "cookiex", cookiex_cases(), oracle)
+    core.drive_cases(rec, "cookietok", cookietok_cases(), oracle)
+    core.drive_cases(rec, "cookieobj", cookieobj_cases(), oracle_cookie_object)
     core.drive_cases(rec, "redirect_exh", redirect_exh_cases(quick), oracle_redirect, sample=False)
-    for sub in ("paths", "special", "long", "kinds", "cookiex", "redirect_exh"):
+    for sub in ("paths", "special", "long", "kinds", "cookiex", "cookietok", "cookieobj", "redirect_exh"):
         rec.exhaustive[sub] = True  # the listed grid is enumerated completely
     core.drive_hypothesis(rec, "history", history_case(), oracle, 1500 if quick else 30000)
     core.drive_hypothesis(rec, "redirect", redirect_case(), oracle_redirect, 1500 if quick else 30000, seed_offset=2)
     rec.exhaustive["history"] = rec.exhaustive["redirect"] = False
+    if not os.environ.get(_OPT_GUARD):
+        # last, so that whatever shows in the ordinary interpreter too is reported by its own sub-check first
+        core.drive_cases(rec, "optimized", [{"only": OPT_ONLY, "timeout": 60}], oracle_optimized)
+        rec.exhaustive["optimized"] = True
     if not quick:
         # coverage-guided second engine (Atheris / libFuzzer), same oracle inside the target
         from fuzz import driver
